@@ -71,7 +71,17 @@ class Guards:
                 return []
             if isinstance(d, tuple) and d[0] == "discr":
                 if label[0] == "val":
-                    return [("is", d[1], label[1])]
+                    # ... and it is none of the other listed variants: stated too, so that arms sharing a body
+                    # (`Equal | Greater => ..`) still know, after their edges join, which variant it is not
+                    others = []
+                    for v, _ in t.get("targets", []):
+                        try:
+                            v = int(v)
+                        except (TypeError, ValueError):
+                            continue
+                        if v != label[1]:
+                            others.append(v)
+                    return [("is", d[1], label[1])] + [("isnot", d[1], v) for v in others]
                 return [("isnot", d[1], v) for v in label[1]]
             if dty == "bool":
                 if label[0] == "val":
@@ -190,6 +200,18 @@ class Zone:
                     more.add(("le", x, hi, -1))
                 else:
                     self._either.append(((x, lo, -1), (hi, x, 0)))
+        # an excluded outcome of a three-way comparison of two usize values (`match a.cmp(&b) { Less => .., _ => .. }`)
+        for a in atoms:
+            if a[0] == "isnot" and isinstance(a[1], tuple) and a[1][:2] == ("call", "<usize as Ord>::cmp") and len(a[1][2]) == 2:
+                xs = [_deref_value(x) for x in a[1][2]]
+                if None not in xs:
+                    x, y = norm(xs[0]), norm(xs[1])
+                    if a[2] in (255, -1):
+                        more.add(("le", y, x, 0))      # not Less: x >= y
+                    elif a[2] == 1:
+                        more.add(("le", x, y, 0))      # not Greater: x <= y
+                    elif a[2] == 0:
+                        more.add(("ne", x, y))         # not Equal
         if more:
             atoms = set(atoms) | more
         self.atoms = atoms
@@ -210,13 +232,14 @@ class Zone:
         # a decided three-way comparison of two usize values orders them
         self._cmp = []
         for a in atoms:
-            if a[0] == "is" and isinstance(a[1], tuple) and a[1][:2] == ("call", "<usize as Ord>::cmp") and len(a[1][2]) == 2:
+            if a[0] in ("is", "isnot") and isinstance(a[1], tuple) and a[1][:2] == ("call", "<usize as Ord>::cmp") and len(a[1][2]) == 2:
                 xs = [_deref_value(x) for x in a[1][2]]
                 if None not in xs and a[2] in (255, -1, 0, 1):
                     x, y = norm(xs[0]), norm(xs[1])
                     terms.add(x)
                     terms.add(y)
-                    self._cmp.append((x, y, a[2]))
+                    if a[0] == "is":
+                        self._cmp.append((x, y, a[2]))
         # a decided `checked_sub` (directly, or through the `?` operator's Try::branch): Some/Continue means
         # k <= a and the payload is a - k; None/Break means a < k
         self._csub = []
@@ -419,6 +442,16 @@ class Zone:
                     for (x, y, w) in _phi_field_bounds(self.fn, t, [u for u in self.terms if u[0] in ("cparam",)] + [z]):
                         if x in self.idx and y in self.idx and self._add(x, y, w):
                             changed = True
+                if t[0] == "phi" and len(t) == 3 and isinstance(t[2], tuple) and t[2][:1] == ("L",) and t not in self._ens_done and not getattr(self, "_nojoin", False) \
+                        and isinstance(t[1], int) and self.fn.local_ty(t[2][1]) == "usize":
+                    # a joined usize (`let n = if a <= b { a } else { b };` — a hand-written min/max/clamp) is bounded by whatever
+                    # bounds it on every incoming edge, among values that mean the same on all of them (parameters, const
+                    # parameters, memory at entry)
+                    self._ens_done.add(t)
+                    cands = [u for u in self.terms if u[0] in ("cparam", "param") or (u[0] == "load" and u[3][0] == "entry")][:8] + [z]
+                    for (x, y, w) in _phi_field_bounds(self.fn, t, cands):
+                        if x in self.idx and y in self.idx and self._add(x, y, w):
+                            changed = True
                 if t[0] == "load" and t[2] in (("iter", "start"), ("iter", "end")) and t[3][0] == "def" and t not in self._ens_done:
                     # std's Range<usize> iterator, the index source of a Drain (trusted, like RangeBounds): `next` hands out
                     # the old start and advances it by one, `next_back` retreats the end by one and hands out the new end;
@@ -520,7 +553,10 @@ class Zone:
 
 
 def _phi_field_bounds(fn, t, bounds):
-    phi, fname = t[1], t[2]
+    if t[0] == "phi":
+        phi, fname = t, None
+    else:
+        phi, fname = t[1], t[2]
     blk, var = phi[1], phi[2]
     if not (isinstance(blk, int) and blk < len(fn.blocks)):
         return []
@@ -528,7 +564,7 @@ def _phi_field_bounds(fn, t, bounds):
     for p in fn.preds(False).get(blk, []):
         n = len(fn.blocks[p]["stmts"]) + 1
         v = fn.version_expr(fn.version_at(p, n, var))
-        e = norm(fn.deep_simplify(("field", v, fname)))
+        e = norm(fn.deep_simplify(("field", v, fname) if fname is not None else v))
         ins.append((p, e))
     if not ins:
         return []
